@@ -84,7 +84,7 @@ def modeint(lay):
 
 
 # ------------------------------------------------------------------------------------- filling
-PATTERNS = ("zero", "ones", "min", "max", "one", "count", "rand", "rand2", "small", "fpedge")
+PATTERNS = ("zero", "ones", "min", "max", "one", "count", "rand", "rand2", "small", "fpedge", "ctrl", "fint")
 
 
 def _field_bytes(e, pattern, rng, k):
@@ -108,6 +108,17 @@ def _field_bytes(e, pattern, rng, k):
             v = (float("inf"), float("-inf"), 3.4028234663852886e38 if n == 4 else 1.7976931348623157e308, 1e-45 if n == 4 else 5e-324, -0.0)[(k + rng.randrange(5)) % 5]
             return struct.pack("<f" if n == 4 else "<d", v)
         return b"\x01" + bytes(n - 2) + b"\x80" if n > 1 else b"\x81"
+    if pattern == "fint":
+        # floating point fields holding INTEGRAL values beyond the 32 / 64-bit integer ranges and negative ones (an application may
+        # hand them back as Python ints); everything else zero
+        if t == "R":
+            v = (-85.0, float(2 ** 40), -float(2 ** 33), 16777216.0, -1.0, float(2 ** 70) if n == 8 else float(2 ** 100))[(k + rng.randrange(6)) % 6]
+            return struct.pack("<f" if n == 4 else "<d", v)
+        return bytes(n)
+    if pattern == "ctrl":
+        # values that are control characters when read as text: line feed, carriage return, NUL, tab, escape (10, 13, 0, 9, 27) in the
+        # first byte of every field - selectors, port IDs, protocol IDs and indices of 10 in particular
+        return bytes(((10, 13, 9, 27, 10, 0)[(k + rng.randrange(6)) % 6],)) + bytes(n - 1)
     if pattern == "small":
         # small values (0..3) in every field: versions, enumerations, selectors and flags take their meaningful values together
         if t == "R":
@@ -147,7 +158,9 @@ def fill(lay, pattern, rng, cfgdb=None):
     for k, e in enumerate(entries):
         if e["k"] == "f":
             if e["size"] < 0:  # CH: rest of payload, ASCII text
-                txt = {"zero": b"", "ones": b"~" * 40, "one": b"A"}.get(pattern)
+                # (text as receivers send it: also with line ends, tabs, trailing blanks and NULs at either end)
+                txt = {"zero": b"", "ones": b"~" * 40, "one": b"A", "min": b"ANTSTATUS=OK\r\n", "max": b"\r\n", "count": b" x \t\n", "small": b"\x00pad\x00\x00",
+                       "fpedge": b"line1\r\nline2\r"}.get(pattern)
                 if txt is None:
                     txt = bytes(rng.randrange(0x20, 0x7F) for _ in range(rng.randrange(1, 60)))
                 tail = txt
@@ -412,6 +425,9 @@ def parse_payload(m, cls, mid, pbf, P, validate=1):
                 raw, msg = UBXReader(io.BytesIO(f), msgmode=m, validate=validate, parsebitfield=pbf, quitonerror=2).read()
                 if msg is None:
                     return None, "none", f
+            elif cls == 6 and mid in (0x8A, 0x8C) and m == 1 and route in (1, 3):
+                # CFG-VALSET / CFG-VALDEL are input messages no poll can be mistaken for: automatic mode resolution gives the same
+                msg = UBXReader.parse(f, msgmode=3, validate=validate, parsebitfield=pbf)
             else:
                 msg = UBXReader.parse(f, msgmode=m, validate=validate, parsebitfield=pbf)
             msg = envrot.twin(msg, envrot.key(bytes(P), cls, mid, m))
